@@ -44,7 +44,8 @@ def ident(D, P, n):
 
 def wellcond(rng, n, p, pivot=False):
     M = rnd_arr(rng, (n, n)) + (2.5 + 0.5 * p) * numpy.eye(n)
-    if pivot: M = M[::-1].copy()          # needs row pivoting
+    if pivot == 'cyclic': M = numpy.roll(M, 1, axis=0).copy()   # row pivoting with a permutation that is not an involution (n >= 3)
+    elif pivot: M = M[::-1].copy()          # needs row pivoting
     return M
 
 
@@ -76,8 +77,8 @@ def c07(rng, tier):
                 except Exception as e: yield case, 'raises %s: %s' % (type(e).__name__, str(e)[:100]); continue
                 yield case, (None if close(r.data, want) else 'outer differs from the truncated outer product')
         # ---- inv / solve / det / logdet / trace
-        for n in (1, 2, 3):
-            for pivot in (False, True):
+        for n in (1, 2, 3, 4):
+            for pivot in (False, True, 'cyclic'):
                 Ad = poly(rng, D, P, (n, n), base=lambda p: wellcond(rng, n, p, pivot))
                 case = {'fn': 'inv', 'n': n, 'pivot': pivot, 'D': D, 'P': P}
                 try: r = a.inv(U(Ad.copy()))
@@ -206,7 +207,7 @@ def c08(rng, tier):
                 yield case, f
         # ---------------- LU
         for n in (1, 2, 3, 4):
-            for pivot in (False, True):
+            for pivot in (False, True, 'cyclic'):
                 Ad = poly(rng, D, P, (n, n), base=lambda p: wellcond(rng, n, p, pivot))
                 case = {'fn': 'lu', 'n': n, 'pivot': pivot, 'D': D, 'P': P}
                 try: W, L, Uu = a.lu(U(Ad.copy()))
